@@ -1,4 +1,5 @@
 """C19 - ZooKeeper server set reports exactly the membership changes that occurred."""
+import collections
 import json
 
 import gevent
@@ -13,7 +14,7 @@ from vf.lbharness import ChannelProvider
 from scales.constants import SinkProperties
 from scales.loadbalancer.heap import HeapBalancerSink
 from scales.loadbalancer.serverset import ZooKeeperServerSetProvider
-from scales.loadbalancer.zookeeper import ServerSet
+from scales.loadbalancer.zookeeper import ServerSet, Member
 
 ID = 'C19'
 LEVEL = 'exploration'
@@ -48,6 +49,9 @@ def data(i, ep=None):
   return json.dumps({'serviceEndpoint': {'host': 'h%d%s' % (i, SALT[0]), 'port': 1000 + i}, 'additionalEndpoints': {}, 'status': 'ALIVE'}).encode()
 
 
+_TupleMember = collections.namedtuple('_TupleMember', 'name service_endpoint additional_endpoints')
+
+
 def strategy(tier):
   pairs = [
       (7, st.tuples(st.just('create'), st.integers(0, 5)).map(list)),
@@ -65,6 +69,9 @@ def strategy(tier):
       (1, st.tuples(st.just('vanish'), st.integers(0, 5)).map(list)),
       # the whole path is deleted while the server set is still reading two freshly listed members
       (1, st.just(['vanish_parent'])),
+      # the empty path is deleted, re-created with a member after gap1 ms, member and path deleted after gap2 ms, with drawn read latencies
+      (3, st.tuples(st.just('cycle'), st.sampled_from([0, 1, 2, 3, 5]), st.sampled_from([0, 1, 2, 4, 6]), st.integers(0, 5),
+                    st.lists(st.sampled_from([0, 1, 2, 3]), min_size=3, max_size=3)).map(list)),
       # the same server registered under two znode names (identical data); only for the name-keyed consumer
       (2, st.tuples(st.just('twin'), st.integers(0, 5)).map(list)),
       # the balancer is closed and a new one is opened on the same provider object
@@ -80,6 +87,7 @@ def strategy(tier):
       'latencies_ms': st.lists(st.sampled_from([0, 0, 1, 1, 3]), min_size=1, max_size=5),
       'with_balancer': st.booleans(),
       'salt': st.sampled_from(['', '', '-x', '-y', '.z']),
+      'member_factory': st.sampled_from([None, None, None, 'tuple']),
       'ops': sized_list(weighted(*pairs), 0, 50 if tier == 'quick' else 140),
   })
 
@@ -118,11 +126,18 @@ def execute(plan):
         self.__dict__.setdefault('vf_reported', []).append(None if stat is None else stat.czxid)
         return ServerSet._data_changed(self, data, stat)
 
-    sss = [ObservedServerSet(zk, PATH, cb('join'), cb('leave'), lambda n: n.startswith('member_'))]
+    # an application's own member type (the documented member_factory hook): a plain tuple type with the fields consumers use
+    factory = None
+    if plan.get('member_factory') == 'tuple':
+      def factory(node, data_):
+        m = Member.from_node(node, data_)
+        return _TupleMember(m.name, m.service_endpoint, m.additional_endpoints)
+      flags.add('tuple_members')
+    sss = [ObservedServerSet(zk, PATH, cb('join'), cb('leave'), lambda n: n.startswith('member_'), factory)]
     lb = None
     zkp = None
     if plan['with_balancer']:
-      zkp = ZooKeeperServerSetProvider(zk, PATH)
+      zkp = ZooKeeperServerSetProvider(zk, PATH, member_factory=factory)
       zkp.ServerSet = ObservedServerSet
       prov = HeapBalancerSink.Builder(server_set_provider=zkp)
 
@@ -247,7 +262,7 @@ def execute(plan):
         sss[0].stop()
         settle()
         log.append(('restart', None))
-        sss[0] = ObservedServerSet(zk, PATH, cb('join'), cb('leave'), lambda n: n.startswith('member_'))
+        sss[0] = ObservedServerSet(zk, PATH, cb('join'), cb('leave'), lambda n: n.startswith('member_'), factory)
         flags.add('consumer_restarted_with_same_callbacks')
       elif k == 'reopen_balancer':
         if lbs[0] is not None:
@@ -274,6 +289,27 @@ def execute(plan):
           advance(0.01)
           zk.override = {}
           flags.add('path_deleted_while_members_being_read')
+      elif k == 'cycle':
+        # the (empty) watched path is deleted, comes back with a member a moment later, and both go again a moment after
+        # that - all while the watch callbacks of the first deletion are still being served one by one
+        _, gap1, gap2, i, lat = op
+        ch = zk.children(PATH)
+        if ch is not None and not [c for c in ch if c.startswith('member_')] and ep_of(i) not in tree_eps().values():
+          advance(0.03)
+          zk.override = {'get_children': lat[0] / 1000.0, 'get': lat[1] / 1000.0, 'exists': lat[2] / 1000.0}
+          for c in ch:
+            zk.z_delete('%s/%s' % (PATH, c))
+          zk.z_delete(PATH)
+          advance(gap1 / 1000.0)
+          zk.z_create(PATH)
+          zk.z_create('%s/%s' % (PATH, NAMES[i]), data(i))
+          advance(gap2 / 1000.0)
+          zk.z_delete('%s/%s' % (PATH, NAMES[i]))
+          zk.z_delete(PATH)
+          parent_deleted_with_members = True
+          advance(0.02)
+          zk.override = {}
+          flags.add('path_cycled_while_callbacks_pending')
       elif k == 'delete_parent':
         ch = zk.children(PATH)
         if ch is not None:
